@@ -147,14 +147,25 @@ def bodyPass (defs : List GateDef) (params qargs : List Str) : List GOp → Exce
     | .CX a b => chk cs!"CX" [] [a, b]
     | .call n ps qs => if isGateName defs n then chk n ps qs else .error .syntax
 
+/-- the name is already a register (repaired variant `Gen.redeclChecked`: a second declaration is refused) -/
+def regDeclared (st : Init) (n : Str) : Bool := (regFind st.qregs n).isSome || (regFind st.cregs n).isSome
+
+/-- `gate_name in self.gate_names and gate_name not in self.predefined_gates`: already defined by the program -/
+def gateDeclared (st : Init) (n : Str) : Bool := st.defs.any (·.name == n) && !predefined n
+
 /-- `_initialize_pass` -/
 def initPass : List Stmt → Init → Except Err Init
   | [], st => .ok { st with rest := st.rest.reverse }
   | s :: ss, st =>
     match s with
-    | .qreg n k => initPass ss { st with qregs := (n, st.nq, k) :: st.qregs, nq := st.nq + k }
-    | .creg n k => initPass ss { st with cregs := (n, st.nc, k) :: st.cregs, nc := st.nc + k }
+    | .qreg n k =>
+      if Gen.redeclChecked && regDeclared st n then .error .value
+      else initPass ss { st with qregs := (n, st.nq, k) :: st.qregs, nq := st.nq + k }
+    | .creg n k =>
+      if Gen.redeclChecked && regDeclared st n then .error .value
+      else initPass ss { st with cregs := (n, st.nc, k) :: st.cregs, nc := st.nc + k }
     | .gate d =>
+      if Gen.redeclChecked && gateDeclared st d.name then .error .value else
       match bodyPass st.defs d.params d.qargs d.body with
       | .error e => .error e
       | .ok b =>
